@@ -343,7 +343,7 @@ class Gen:
 
     SCENARIOS = ["diamond", "captured", "chain", "sites", "zipmap", "nestedzip", "sharedlit", "matrix",
                  "ntupleidx", "objkeys", "zipsizes", "arraynewmix", "samelit", "failedcompile", "triangle", "kwcall", "closureloop", "litfold", "paramzip", "objorder",
-                 "mapinner", "badret", "nestedparam", "twoarrparams", "matrices", "nestedacc", "zerolit", "outparties", "arrayofop"]
+                 "mapinner", "badret", "nestedparam", "twoarrparams", "matrices", "nestedacc", "zerolit", "outparties", "arrayofop", "litparams", "literalout"]
 
     def scenario(self, k=None):
         rng = self.rng
@@ -671,7 +671,62 @@ class Gen:
             self.do({"op": "bin", "bop": "xor", "a": xb, "b": self.last()})
             outs.append(self.last())
             rng.shuffle(outs)
+            if rng.random() < 0.5:
+                # every one of them delivered (the first literal of the program written again, then new ones)
+                self.dist["compile"] = self.dist.get("compile", 0) + 1
+                self.m.compile([[r, f"out{i}", rng.choice(self.parties)] for i, r in enumerate(outs) if self.m.regs[r] is not DEAD])
+                return None
             self.compile_now(prefer=outs[:4])
+            return None
+        if k == "litparams":
+            # a function with several literal-typed parameters of one type next to a non-literal one, each used at its own
+            # place in the body (never literal with literal: that folds, F-C04-1), called with different literal values
+            S = rng.choice(["SecretInteger", "PublicInteger"])
+            nlit = rng.choice([2, 2, 3])
+
+            def body(ps):
+                acc = ps[0]
+                for bop, lp in zip(["sub", "mul", "add"], ps[1:]):
+                    self.do({"op": "bin", "bop": bop, "a": acc, "b": lp} if rng.random() < 0.7 else {"op": "bin", "bop": bop, "a": lp, "b": acc})
+                    acc = self.last()
+                return acc
+            self.define_fn(anns=[S] + ["Integer"] * nlit, ret=S, plan=body)
+            f = self.last() if describe(self.m.regs[self.last()])[0] == "fn" else None
+            if f is None:
+                return None
+            x = self.new_input(S)
+            args = [x]
+            for v in rng.sample([2, 5, 11, -3, 0], nlit):
+                self.do({"op": "lit", "base": "int", "v": str(v)})
+                args.append(self.last())
+            self.do({"op": "call", "f": f, "args": args})
+            called = self.last()
+            if self.m.regs[called] is DEAD:
+                return None
+            self.compile_now(prefer=[called])
+            return None
+        if k == "literalout":
+            # outputs that are literals themselves, next to equal literals written earlier / later inside expressions, call
+            # arguments and array members that are delivered too
+            v = rng.choice([1, 0, 7, -4, 2**64])
+            x = self.new_input("SecretInteger")
+            outs = []
+            order = rng.sample(["expr", "direct", "direct2", "array"], 4)
+            for what in order:
+                self.do({"op": "lit", "base": "int", "v": str(v)})
+                l = self.last()
+                if what == "expr":
+                    self.do({"op": "bin", "bop": op(), "a": x, "b": l})
+                    outs.append(self.last())
+                elif what == "array":
+                    self.do({"op": "lit", "base": "int", "v": str(v)})
+                    self.do({"op": "arrayNew", "xs": [l, self.last()]})
+                    if self.m.regs[self.last()] is not DEAD:
+                        outs.append(self.last())
+                else:
+                    outs.append(l)
+            self.dist["compile"] = self.dist.get("compile", 0) + 1
+            self.m.compile([[r, f"out{i}", rng.choice(self.parties)] for i, r in enumerate(outs) if self.m.regs[r] is not DEAD])
             return None
         if k == "failedcompile":
             # a compilation that fails part-way (two different inputs under one name), followed by further compilations
@@ -1207,7 +1262,11 @@ class Gen:
     def program(self):
         rng = self.rng
         for i in range(rng.choice([1, 1, 2, 3])):
-            self.do({"op": "party", "name": rng.choice(["P", "Q", "R", "alice"]) + str(i)})
+            name = rng.choice(["P", "Q", "R", "alice"]) + str(i)
+            if i > 0 and rng.random() < 0.2:
+                # the same party written a second time (another Party object, another line of the program text)
+                name = self.m.events[0]["c"]["name"] if self.m.events and self.m.events[0].get("c", {}).get("op") == "party" else name
+            self.do({"op": "party", "name": name})
             self.parties.append(len(self.m.regs) - 1)
         for _ in range(rng.randint(1, 4)):
             self.new_input()
